@@ -219,7 +219,14 @@ class SchedLock:
         ex = _EXEC
         tid = ex.idents.get(me) if ex is not None else None
         if tid is None:
-            ok = self._real.acquire(blocking, timeout) if blocking else self._real.acquire(False)
+            if blocking and timeout == -1:
+                # outside a controlled execution (sequential epilogue of a harness): a lock that is still held now was left
+                # behind by a thread that has finished - nobody will ever release it
+                ok = self._real.acquire(True, 1.5)
+                if not ok:
+                    raise Deadlock("a lock is still held by a thread that has finished: this acquire would block forever")
+            else:
+                ok = self._real.acquire(blocking, timeout) if blocking else self._real.acquire(False)
             if ok:
                 self._owner, self._count = me, 1
             return ok
@@ -481,6 +488,9 @@ def exec_schedule(make_bodies, check, prefix, isolate=False):
     return one()
 
 
+VISITS_MAX = [0]
+
+
 def explore(make_bodies, check, bound, prefix=(), stats=None, cap=None, isolate=False):
     """DFS from `prefix`.  check(ex, ctx) -> None | violation dict.  Returns list of violations.
     stats: dict updated with schedules / points / preemption histogram."""
@@ -509,11 +519,17 @@ def explore(make_bodies, check, bound, prefix=(), stats=None, cap=None, isolate=
             if len(viols) >= 5:
                 break
         choices = [p[3] for p in points]
-        for i in range(len(pre), len(points)):
+        visits = {}
+        for i in range(len(points)):
             _tid, _loc, n_en, _c, is_exit, _g = points[i]
+            visits[(_tid, _loc)] = visits.get((_tid, _loc), 0) + 1
+            if i < len(pre):
+                continue
             cost = preemptions(points, i) + (0 if is_exit else 1)
             if cost > bound:
                 continue
+            if VISITS_MAX[0] and not is_exit and visits[(_tid, _loc)] > VISITS_MAX[0]:
+                continue  # (stated bound of this exploration: deviations only at the first visits of a line by a thread)
             for alt in range(1, n_en):
                 stack.append(choices[:i] + [alt])
     return viols
